@@ -32,3 +32,6 @@ Proof.
   revert n; induction l as [|a l IH]; intros n H; destruct n; cbn in *; try contradiction.
   destruct H as [->|H]; [left; reflexivity | right; eapply IH; exact H].
 Qed.
+
+Lemma nth_repeat_lt {B} (a d : B) n i : i < n -> nth i (repeat a n) d = a.
+Proof. revert i; induction n as [|n IH]; intros i H; [lia|]. destruct i; cbn; [reflexivity|]. apply IH. lia. Qed.
